@@ -14,12 +14,34 @@ _intern = {}
 _serial = {}
 
 
+class TooBig(Exception):
+    """analysis budget for one instance exhausted (never a verdict)"""
+
+
+_budget = [None, None]      # (max interned terms, deadline)
+
+
+def set_budget(nodes=None, seconds=None):
+    import time
+    _budget[0] = (len(_intern) + nodes) if nodes else None
+    _budget[1] = (time.time() + seconds) if seconds else None
+
+
 def mk(*t):
-    r = _intern.get(t)
+    # intern on a shallow key (ids of sub-terms): hashing nested tuples is linear in term size
+    k = tuple([id(x) if x.__class__ is tuple else x for x in t])
+    r = _intern.get(k)
     if r is None:
-        _intern[t] = t
-        _serial[id(t)] = len(_serial)
+        _intern[k] = t
+        n = len(_serial)
+        _serial[id(t)] = n
         r = t
+        if _budget[0] is not None and n > _budget[0]:
+            raise TooBig("more than the node budget")
+        if _budget[1] is not None and (n & 1023) == 0:
+            import time
+            if time.time() > _budget[1]:
+                raise TooBig("time budget")
     return r
 
 
@@ -31,6 +53,7 @@ def reset():
     _intern.clear()
     _serial.clear()
     _slice_memo.clear()
+    _not_memo.clear()
 
 
 def W(t):
@@ -302,7 +325,27 @@ def msb(t):
 
 # ---------------------------------------------------------------- bitwise
 
+_not_memo = {}
+_tick = [0]
+
+
+def _check_time():
+    _tick[0] += 1
+    if (_tick[0] & 255) == 0 and _budget[1] is not None:
+        import time
+        if time.time() > _budget[1]:
+            raise TooBig("time budget")
+
+
 def not_(t):
+    r = _not_memo.get(id(t))
+    if r is None:
+        r = _not(t)
+        _not_memo[id(t)] = r
+    return r
+
+
+def _not(t):
     op = t[0]
     w = t[1]
     if op == "const":
@@ -340,6 +383,7 @@ def _boundaries(t):
 
 def nary(op, w, xs):
     """n-ary associative commutative op: and or xor add mul"""
+    _check_time()
     flat = []
     for x in xs:
         assert x[1] == w, (op, w, x[:2])
@@ -465,7 +509,7 @@ def nary(op, w, xs):
                 order.append(x)
             cnt[id(x)] += 1
         rest = [x for x in order if cnt[id(x)] % 2]
-    if w == 1 and op in ("and", "or") and len(rest) >= 2:
+    if w == 1 and op in ("and", "or") and 2 <= len(rest) <= 12:
         want = "eq" if op == "and" else "ne"
         changed = True
         while changed:
@@ -478,8 +522,7 @@ def nary(op, w, xs):
                     for (pa, pb) in ((p[3], p[4]), (p[4], p[3])):
                         ma = _merge(pa, q[3])
                         mb = _merge(pb, q[4])
-                        if ma is not None and mb is not None and ma[0] in ("arg", "const", "mem") \
-                                and mb[0] in ("arg", "const", "mem"):
+                        if ma is not None and mb is not None:
                             rest = [x for x in rest if x is not p and x is not q]
                             rest.append(icmp(want, ma, mb))
                             changed = True
@@ -1381,6 +1424,26 @@ def opc(name, w, a, b):
     if a[0] == "const" and b[0] == "const" and not name.startswith("f"):
         return _fold(mk(name, w, a, b))
     return mk(name, w, a, b)
+
+
+def nonzero(t):
+    """t is provably different from zero"""
+    if t[0] == "const":
+        return t[2] != 0
+    if t[0] == "select":
+        c, a, b = t[2], t[3], t[4]
+        if c[0] == "icmp" and c[2] == "eq" and is_zero(c[4]):
+            # select(x == 0, a, b): b may be x itself
+            if nonzero(a) and (b is c[3] or nonzero(b) or (b[0] in ("call:llvm.abs", "neg") and b[2] is c[3])):
+                return True
+        return nonzero(a) and nonzero(b)
+    if t[0] == "or":
+        return any(nonzero(x) for x in t[2:])
+    if t[0] == "concat":
+        return any(nonzero(p) for p in t[2:])
+    if t[0] == "call:llvm.umax":
+        return any(nonzero(x) for x in t[2:])
+    return False
 
 
 # ---------------------------------------------------------------- queries
